@@ -25,7 +25,10 @@ mod availability {
 #[path = "/repo/actix-server/src/builder.rs"] mod builder;
 #[path = "/repo/actix-server/src/handle.rs"] mod handle;
 #[path = "/repo/actix-server/src/join_all.rs"] mod join_all;
-#[path = "/repo/actix-server/src/server.rs"] mod server;
+mod server {
+    include!("/repo/actix-server/src/server.rs");
+    #[cfg(feature = "drv")] pub(crate) mod drv;
+}
 #[path = "/repo/actix-server/src/service.rs"] mod service;
 #[path = "/repo/actix-server/src/signals.rs"] mod signals;
 #[path = "/repo/actix-server/src/socket.rs"] mod socket;
@@ -47,3 +50,4 @@ pub use self::{
 #[cfg(feature = "drv")] pub fn drv_accept(script: &str) -> String { accept::drv::run(script) }
 #[cfg(feature = "drv")] pub fn drv_worker(script: &str) -> String { worker::drv::run(script) }
 #[cfg(feature = "drv")] pub fn drv_avail(line: &str) -> String { availability::drv(line) }
+#[cfg(feature = "drv")] pub fn drv_server(line: &str) -> String { server::drv::run(line) }
